@@ -100,6 +100,20 @@ pub mod verif {
     pub use crate::math::verif_exports as math;
     pub use crate::search::verif_exports as search;
     pub use crate::symmetrize::verif_exports as symmetrize;
+
+    /// Thread-local event trace (tolerance updates, ...) read by the verification harness.
+    pub mod trace {
+        use std::cell::RefCell;
+        thread_local! {
+            static TRACE: RefCell<Vec<String>> = const { RefCell::new(Vec::new()) };
+        }
+        pub fn push(event: String) {
+            TRACE.with(|t| t.borrow_mut().push(event));
+        }
+        pub fn take() -> Vec<String> {
+            TRACE.with(|t| std::mem::take(&mut *t.borrow_mut()))
+        }
+    }
 }
 
 use crate::base::{
